@@ -21,6 +21,8 @@ BASES = {
                    [[0, 1, 1, 2, 2], [1, 5, 2, 6, 3], [4, 4, 5, 5, 6]]),
     'tri_renum8': ('MeshTri1', [[1., 0., .5, 0., 1., .5, 0., 1., .5], [1., 1., 1., 0., 0., 0., .5, .5, .5]],
                    [[3, 5, 5, 4, 6, 8, 8, 7], [5, 8, 4, 7, 8, 2, 7, 0], [6, 6, 8, 8, 1, 1, 2, 2]]),
+    # isosceles cells whose two LONGEST edges are bitwise equal, apex with the middle vertex number (ties in the longest-edge rule)
+    'tri_isosceles4': ('MeshTri1', [[0., 1., 2., 3., 4., 5.], [0., 2., 0., 2., 0., 2.]], [[0, 1, 2, 3], [1, 2, 3, 4], [2, 3, 4, 5]]),
     'tet1': ('MeshTet1', [[0., 1., 0., 0.], [0., 0., 1., 0.], [0., 0., 0., 1.]], [[0], [1], [2], [3]]),
     'tet2': ('MeshTet1', [[0., 1., 0., 0., 1.], [0., 0., 1., 0., 1.], [0., 0., 0., 1., 1.]], [[0, 1], [1, 2], [2, 3], [3, 4]]),
     'tet_cube5': ('MeshTet1', [[0., 0., 0., 1., 0., 1., 1., 1.], [0., 0., 1., 0., 1., 0., 1., 1.], [0., 1., 0., 0., 1., 1., 0., 1.]],
